@@ -151,6 +151,7 @@ def _execute(prop, seed, batch, replay, want_ops, root, journal=None):
     """Runs in the forked child.  Returns a JSON-able result dict."""
     gc.disable()
     World = load_world(prop)
+    gc.freeze()          # everything imported so far is permanent: gc.collect() at step boundaries stays cheap
     cwd0 = os.getcwd()
     os.chdir(root)
     rng_swarm = random.Random(subseed(seed, "swarm"))
